@@ -32,6 +32,9 @@ class FakeStream:
 
     def __init__(self, env: "TrioEnv") -> None:
         self.env = env
+        high = env.sess.script.get("transport_high")
+        if high is not None:
+            self.HIGH = int(high)
         self.socket = FakeSocket()
         self.inbox = bytearray()
         self.in_eof = False
@@ -339,12 +342,13 @@ class TrioEnv:
             if item is not None:
                 kind, val = item
                 target = val if kind == "tick" else self.now() + val
+                target = round(target * 1000) / 1000   # as in aio_env: millisecond grid, deadlines within 1e-7 count
                 self.sess.trace.log("tick", to=ms(target))
                 while True:
                     await self._settle()
                     nxt = trio.lowlevel.current_statistics().seconds_to_next_deadline
                     remaining = target - self.now()
-                    if nxt == float("inf") or nxt > remaining or remaining <= 0:
+                    if nxt == float("inf") or nxt > remaining + 1e-7 or remaining < -1e-7:
                         break
                     self.clock.jump(max(nxt, 0.0))
                     await self._settle()
@@ -378,6 +382,11 @@ class TrioEnv:
                 await self._run_steps(sess.steps())
                 await self._run_steps(sess.finish_steps())
                 sess.trace.sealed = True
+                # leftovers inside a shielded scope (the idle timer's server close parked on a full application
+                # queue) would outlive the cancellation and with it this run: the trace is sealed, take the
+                # shields down
+                for task in list(nursery.child_tasks):
+                    _unshield(task)
                 self.nursery = None
                 nursery.cancel_scope.cancel()
         except BaseException as error:  # leftovers cancelled at the end of the execution
@@ -386,6 +395,20 @@ class TrioEnv:
 
     def run(self) -> None:
         trio.run(self._main, clock=self.clock, instruments=[self.counter])
+
+
+def _unshield(task) -> None:
+    try:
+        status = task._cancel_status
+        while status is not None:
+            if getattr(status._scope, "shield", False):
+                status._scope.shield = False
+            status = status._parent
+    except AttributeError:   # another trio: the run then ends only when the leftovers do
+        pass
+    for nursery in task.child_nurseries:
+        for child in nursery.child_tasks:
+            _unshield(child)
 
 
 def _count_tasks(task) -> int:
